@@ -437,6 +437,34 @@ func c12(c *Ctx) {
 	}
 	R.Floor("C12.prefix-closed", n, 5)
 
+	// ---- scan-complete: a prefix scan reports the whole stream — its loop ends only when the iterator leaves
+	// the prefix (or with an error); an early exit on a count or on a found element silently drops later keys
+	nscan := 0
+	for _, f := range p.SrcFuncs(pkgDB) {
+		var vfp *ssa.Call
+		eachInstr(f, func(i ssa.Instruction) {
+			if cl, ok := i.(*ssa.Call); ok && facts.CalleeName(&cl.Call) == "(*badger.Iterator).ValidForPrefix" {
+				vfp = cl
+			}
+		})
+		if vfp == nil {
+			continue
+		}
+		nscan++
+		for _, r := range acceptingReturns(f) {
+			fs := facts.At(r, nil)
+			ok := false
+			for _, ft := range fs {
+				if !ft.Pol && ft.Cond == ssa.Value(vfp) {
+					ok = true
+				}
+			}
+			R.Check("C12.scan-complete", R.Key("C12.scan-complete", shortFn(top(f)), "return:nil"), c.rel(p.Pos(instrPos(r))), "the prefix scan in "+shortFn(top(f))+" ends successfully only when the iterator has left the prefix (every key of the stream was visited)", ok,
+				"a successful return is reachable while the iterator is still inside the prefix (early exit from the scan loop): keys that sort later in the stream are not reported", facts.Atoms(fs)...)
+		}
+	}
+	R.Floor("C12.scan-complete", nscan, 2)
+
 	// ---- rpc
 	c12rpc(c, p, idT)
 }
